@@ -62,6 +62,8 @@ type seqInst struct {
 	runseqCancel   context.CancelFunc
 	runseqMode     bool
 	stopLockLen    int
+	sunsetStopped  bool // RunSequencer returned SunsetLogError
+	sunsetArmed    bool // the scenario moved the read-only date next to (or before) now
 	roundAdded     []tileLeaf
 	roundFrom      int64
 	roundCommitted bool
